@@ -279,7 +279,7 @@ def main(argv=None):
             if oid in known_obl:
                 known_hits.append((known_obl[oid].get("id", known_obl[oid].get("id_regex")), known_obl[oid]["what"]))
                 continue
-            if (oid.endswith("::uncaught-exception") or "::reaches-" in oid) and not confirmed:
+            if (oid.endswith("::uncaught-exception") or "::reaches-" in oid or oid in getattr(ded["module"], "NEEDS_WITNESS", ())) and not confirmed:
                 # harness-level obligation: the ABSTRACT run raised / did not reach its end.  Without a native witness this says
                 # that the sidecar model no longer fits the code (e.g. a new `assert` over a value the model keeps abstract),
                 # not that the property is violated: undecided, the bounded driver decides.
